@@ -1652,11 +1652,27 @@ fn gen_run_case_once(r: &mut Rng, max_reqs: u64, adversarial: bool) -> (Setup, V
     let mut now = r.range(0, 1000);
     let mut left = n;
     let mut seen_times: Vec<i64> = vec![];
+    // request times reaching the exchange are NOT monotone in practice: a first-class dimension.
+    // 0 monotone, 1 jitter (small steps back and forth, ties), 2 wild (anywhere, ties, big jumps back)
+    let time_mode = if adversarial { 1 + r.below(2) } else { r.below(3) };
     while left > 0 {
         let size = if r.chance(1, 4) { 1 + r.below(4.min(left)) } else { 1 };
         let mut batch = vec![];
         for _ in 0..size {
-            now = if adversarial && r.chance(1, 6) { r.range(0, 5000) } else { now + r.range(0, 400) };
+            now = match time_mode {
+                0 => now + r.range(0, 400),
+                1 => match r.below(6) {
+                    0 => now,                                  // tie
+                    1 | 2 => (now - r.range(1, 300)).max(0),   // small step back
+                    _ => now + r.range(0, 400),
+                },
+                _ => match r.below(6) {
+                    0 => now,
+                    1 if !seen_times.is_empty() => *r.pick(&seen_times), // tie with an earlier order
+                    2 => (now - r.range(300, 4000)).max(0),    // large step back
+                    _ => r.range(0, 5000),
+                },
+            };
             let kind = match r.below(20) {
                 0 | 1 => RKind::Snapshot,
                 2 => RKind::Balances,
@@ -1691,11 +1707,36 @@ fn gen_run_case_once(r: &mut Rng, max_reqs: u64, adversarial: bool) -> (Setup, V
         left -= size;
         batches.push(batch);
     }
+    // a sweep of fetch_trades(since) around EVERY stored fill time: one ms before, equal, one ms
+    // after, plus before all / after all; the queries' own request times wander as well
+    if seen_times.len() >= 2 && r.chance(2, 3) {
+        let half = (s.latency / 2) as i64;
+        let mut sinces: Vec<i64> = vec![];
+        for t in &seen_times {
+            sinces.extend([t + half - 1, t + half, t + half + 1]);
+        }
+        sinces.push(seen_times.iter().min().unwrap() + half - 1000);
+        sinces.push(seen_times.iter().max().unwrap() + half + 1000);
+        r.shuffle(&mut sinces);
+        sinces.truncate(8);
+        for since in sinces {
+            now = match time_mode {
+                0 => now + r.range(0, 50),
+                _ => (now + r.range(-400, 400)).max(0),
+            };
+            batches.push(vec![RReq { t: now, kind: RKind::Trades(since), beh: Beh::Await }]);
+        }
+    }
     let mut extra = vec![match c {
         Cls::Normal => "magnitude:normal",
         Cls::Tiny => "magnitude:tiny",
         Cls::Huge => "magnitude:huge",
     }];
+    extra.push(match time_mode {
+        0 => "run:times:monotone",
+        1 => "run:times:jitter",
+        _ => "run:times:wild",
+    });
     if by_init {
         let base = Shadow::of(&s);
         let reqs: Vec<&Req> = batches
